@@ -30,14 +30,15 @@ from .. import common, env, g4ref
 ID = "C14"
 LEVEL = "translation_validation"
 TECHNIQUE = "runtime translation validation: shipped lexer/parser executed against a lexer (NFA, maximal munch) and an Earley recogniser derived from blackbird.g4 at run time; artefact ATNs and tables compared structurally; shipped ATN also interpreted as a recursive transition network"
-RULE = ("strings: sentences derived from the grammar file by a coverage-guided random derivation generator (every production used), all "
+RULE = ("strings: sentences derived from the grammar file by a coverage-guided random derivation generator (every production used), sentences derived "
+        "the same way from the shipped parser automaton (reverse inclusion), every member of a token class substituted for another member, all "
         "sentences of the start rule up to a token bound (thorough), their single-token mutations, per lexer rule the strings of its own NFA up "
         "to length 6 and their one-character edits, character soups over the grammar's alphabet plus foreign characters; each string is one "
         "'program': token sequence and accept/reject verdict compared between the shipped artefacts and the grammar-derived reference; "
         "non-trivial = string of >=2 tokens (lexer) / sequence with a verdict (parser); distinct by SHA-1 of the string")
 BUDGET = {"quick": 60000, "thorough": 600000}
 MIN_NONTRIVIAL = {"quick": 15000, "thorough": 150000}
-REQUIRED_TAGS = ["derived-sentence", "mutated-sentence", "lexer-rule-string", "lexer-rule-edit", "char-soup", "accepted", "rejected", "cpp-atn-lexer", "rtn-recogniser"]
+REQUIRED_TAGS = ["derived-sentence", "atn-derived-sentence", "class-substitution", "mutated-sentence", "lexer-rule-string", "lexer-rule-edit", "char-soup", "accepted", "rejected", "cpp-atn-lexer", "rtn-recogniser"]
 ASSUMPTIONS = ["ANTLR lexer semantics for a grammar without modes/predicates/actions: longest match, earliest rule wins ties (bbverif/g4ref.py)",
                "the generated C++ rule functions are not executed (no ANTLR C++ runtime/tool offline); their skeleton is compared textually with the Python target's",
                "that the artefacts are what ANTLR 4.9.2 would emit is not claimed; identity of the shipped automata and language agreement on the explored strings is"]
@@ -588,6 +589,36 @@ def enumerate_sentences(g, max_tokens, cap):
     return out
 
 
+def token_classes(g):
+    """Sets of token types that the grammar offers as alternatives of one another at some point
+    (rules or bracketed groups all of whose alternatives are a single token)."""
+    tokset = set(g.token_names)
+    out = set()
+
+    def walk(node):
+        t = node[0]
+        if t == "alt":
+            alts = node[1]
+            if len(alts) >= 2 and all(len(a[1]) == 1 and a[1][0][0] == "ref" and a[1][0][1] in tokset for a in alts):
+                out.add(frozenset(a[1][0][1] for a in alts))
+            for a in alts:
+                for x in a[1]:
+                    walk(x)
+        elif t in ("star", "plus", "opt"):
+            walk(node[1])
+
+    for (name, frag, body, cmd) in g.parser_rules:
+        walk(body)
+    return sorted(out, key=lambda c: sorted(c))
+
+
+class AtnGrammar:
+    """The shipped parser ATN as a grammar object for the Deriver (sentences of the automaton)."""
+
+    def __init__(self):
+        self.prods, self.start = atn_as_cfg()
+
+
 class Texts:
     """Representative texts per token type."""
 
@@ -708,15 +739,35 @@ def run(ctx):
                 done += 1
     names = [n for n in g.token_names]
     alpha = g.alphabet() + list("é中 \x00\x7f")
+    classes = token_classes(g)
+    ctx.extra["token_classes"] = len(classes)
+    atn_der = Deriver(AtnGrammar(), ctx.rng("derive-atn"))
     i = 0
     while done < total:
         rng = ctx.rng(i)
         i += 1
         c = rng.random()
+        if c < 0.12:
+            # the reverse direction: sentences of the shipped automaton must be sentences of the grammar file
+            atn_der.r = rng
+            types = atn_der.derive(atn_der.g.start, rng.choice([6, 10, 16, 30, 60]))
+            texts.r = rng
+            compare(ctx, g, texts.render(types), ["atn-derived-sentence"], aux)
+            done += 1
+            continue
         if c < 0.35:
             der.r = rng
             types = der.derive(g.start, rng.choice([5, 8, 12, 20, 40, 80]))
             texts.r = rng
+            # every member of a token class in the place of another member (LL(1) sets of the generated code)
+            body_ = [t for t in types if t != "EOF"]
+            spots = [(k_, cl) for k_, t in enumerate(body_) for cl in classes if t in cl]
+            rng.shuffle(spots)
+            for (k_, cl) in (spots if ctx.tier == "thorough" else spots[:4]):
+                for other in sorted(cl):
+                    if other != body_[k_]:
+                        compare(ctx, g, texts.render(body_[:k_] + [other] + body_[k_ + 1 :]), ["class-substitution"], aux)
+                        done += 1
             text = texts.render(types)
             compare(ctx, g, text, ["derived-sentence"], aux)
             done += 1
